@@ -912,10 +912,18 @@ impl<I: Hash + Eq + Clone, A: Hash + Eq + Clone> Game<I, A> {
 
         // check we wrote to all locations
         for vals in split_by_mut(&mut dense, infos.iter().map(|info| info.num_actions())) {
-            let total: f64 = vals.iter().sum();
+            let mut total: f64 = vals.iter().sum();
             if total == 0.0 {
                 return Err(StratError::UninitializedInfoset);
             } else {
+                if !total.is_finite() {
+                    // NOTE a sum of finite weights can overflow, so scale them down first
+                    let largest = vals.iter().copied().fold(0.0, f64::max);
+                    for val in vals.iter_mut() {
+                        *val /= largest;
+                    }
+                    total = vals.iter().sum();
+                }
                 for val in vals.iter_mut() {
                     *val /= total;
                 }
@@ -1028,10 +1036,18 @@ impl<I: Eq, A: Eq> Game<I, A> {
 
         // check that we wrote to every location
         for vals in split_by_mut(&mut dense, infos.iter().map(|info| info.num_actions())) {
-            let total: f64 = vals.iter().sum();
+            let mut total: f64 = vals.iter().sum();
             if total == 0.0 {
                 return Err(StratError::UninitializedInfoset);
             } else {
+                if !total.is_finite() {
+                    // NOTE a sum of finite weights can overflow, so scale them down first
+                    let largest = vals.iter().copied().fold(0.0, f64::max);
+                    for val in vals.iter_mut() {
+                        *val /= largest;
+                    }
+                    total = vals.iter().sum();
+                }
                 for val in vals.iter_mut() {
                     *val /= total;
                 }
